@@ -180,3 +180,204 @@ func safetyKind(k string) bool {
 	}
 	return strings.HasPrefix(k, "call ") && (strings.HasSuffix(k, " no-panic") || strings.HasSuffix(k, " requires"))
 }
+
+// ---------------------------------------------------------------- C10: map-range obligations
+
+// C10 is about evaluation: the interpreter and its standard library.
+var c10Packages = []string{repoPrefix + "/lisp"}
+
+func c10InScope(fn string) bool {
+	return !strings.Contains(fn, "lisp/x/")
+}
+
+func init() {
+	sweepFuncs["C10"] = append(sweepFuncs["C10"], func(eng *Engine) []*Item {
+		var out []*Item
+		count := map[string]int{}
+		for _, s := range eng.mapRanges(c10Packages) {
+			if !c10InScope(s.Func) {
+				continue
+			}
+			count[s.Func]++
+			name := fmt.Sprintf("maprange/%s#%d", s.Func, count[s.Func])
+			it := &Item{Name: name, Backend: "frame", Kind: "sweep", Pos: s.Pos, Detail: s.Class + ": " + s.Why, Func: s.Func, contract: true}
+			if reason, ok := eng.cs.MapRangeExempt[s.Func]; ok && s.Class == "unclassified" {
+				it.Status = "discharged"
+				it.Detail = "EXEMPT (assumption): " + reason
+			} else if s.Class == "unclassified" {
+				it.Status = "failed"
+			} else {
+				it.Status = "discharged"
+			}
+			out = append(out, it)
+		}
+		nbad := 0
+		for _, it := range out {
+			if it.Status != "discharged" {
+				nbad++
+			}
+		}
+		out = append(out, &Item{Name: "maprange/every-site-order-insensitive", Backend: "frame", Kind: "sweep", Func: "maprange", contract: true,
+			Status: map[bool]string{true: "discharged", false: "failed"}[nbad == 0],
+			Detail: fmt.Sprintf("%d range-over-map loops in the interpreter and stdlib; %d neither sorted-before-use, keyed-only, argmin nor exempt", len(out), nbad)})
+		return out
+	})
+}
+
+// ---------------------------------------------------------------- C10: no addresses in rendered text
+
+// formatSites: every formatting call in the interpreter and stdlib whose
+// constant format contains %p, or that passes a value whose static type
+// renders as a Go address under %v (pointer/map/chan/func without a
+// String/Error method).
+func init() {
+	sweepFuncs["C10"] = append(sweepFuncs["C10"], func(eng *Engine) []*Item {
+		var out []*Item
+		isFormatter := func(f *ssa.Function) bool {
+			full := f.String()
+			switch full {
+			case "fmt.Sprintf", "fmt.Errorf", "fmt.Fprintf", "fmt.Sprint", "fmt.Sprintln", "fmt.Fprint", "fmt.Fprintln":
+				return true
+			}
+			if isRepoFunc(f) {
+				switch f.Name() {
+				case "Errorf", "ErrorConditionf", "Error", "ErrorCondition":
+					return true
+				}
+			}
+			return false
+		}
+		count := map[string]int{}
+		nsites, bad := 0, 0
+		for _, fn := range eng.repoFuncs() {
+			pp := fnPkgPath(fn)
+			if !(pp == repoPrefix+"/lisp" || strings.HasPrefix(pp, repoPrefix+"/lisp/lisplib")) {
+				continue
+			}
+			for _, b := range fn.Blocks {
+				for _, in := range b.Instrs {
+					call, ok := in.(*ssa.Call)
+					if !ok {
+						continue
+					}
+					c := call.Call.StaticCallee()
+					if c == nil || !isFormatter(c) {
+						continue
+					}
+					nsites++
+					var problems []string
+					for _, a := range call.Call.Args {
+						if k, ok := a.(*ssa.Const); ok && k.Value != nil && k.Value.Kind() == constant.String {
+							f := constant.StringVal(k.Value)
+							if strings.Contains(f, "%p") || strings.Contains(f, "%#v") && false {
+								problems = append(problems, "format contains %p")
+							}
+						}
+						// variadic arguments: inspect the MakeInterface operands stored in the varargs array
+						if sl, ok := a.(*ssa.Slice); ok {
+							if al, ok := sl.X.(*ssa.Alloc); ok && al.Referrers() != nil {
+								for _, r := range *al.Referrers() {
+									ia, ok := r.(*ssa.IndexAddr)
+									if !ok || ia.Referrers() == nil {
+										continue
+									}
+									for _, rr := range *ia.Referrers() {
+										st, ok := rr.(*ssa.Store)
+										if !ok {
+											continue
+										}
+										mi, ok := st.Val.(*ssa.MakeInterface)
+										if !ok {
+											continue
+										}
+										if k, isConst := mi.X.(*ssa.Const); isConst && k.Value == nil {
+											continue // a constant nil renders as <nil>
+										}
+										if addrRendering(eng, mi.X.Type()) {
+											problems = append(problems, "argument of type "+types.TypeString(mi.X.Type(), func(p *types.Package) string { return p.Name() })+" renders as an address")
+										}
+									}
+								}
+							}
+						}
+					}
+					if len(problems) == 0 {
+						continue
+					}
+					bad++
+					count[shortFn(fn)]++
+					pos := eng.fset.Position(call.Pos())
+					out = append(out, &Item{Name: fmt.Sprintf("format/%s#%d", shortFn(fn), count[shortFn(fn)]), Backend: "frame", Kind: "sweep", Status: "failed",
+						Pos: fmt.Sprintf("%s:%d", shortFile(pos.Filename), pos.Line), Detail: strings.Join(problems, "; "), Func: shortFn(fn), contract: true})
+				}
+			}
+		}
+		out = append(out, &Item{Name: "format/no-address-rendering", Backend: "frame", Kind: "sweep", Func: "format",
+			Status: map[bool]string{true: "discharged", false: "failed"}[bad == 0], contract: true,
+			Detail: fmt.Sprintf("%d formatting call sites in lisp and lisplib; %d render a Go address", nsites, bad)})
+		return out
+	})
+}
+
+// addrRendering: %v of a value of this static type prints a memory address.
+func addrRendering(eng *Engine, t types.Type) bool {
+	switch u := t.Underlying().(type) {
+	case *types.Pointer:
+		ms := eng.prog.MethodSets.MethodSet(t)
+		if ms.Lookup(nil, "String") != nil || ms.Lookup(nil, "Error") != nil || ms.Lookup(nil, "Format") != nil {
+			return false
+		}
+		// %v of a pointer to struct prints &{...} (contents), but nested pointers print addresses;
+		// a pointer to a non-struct prints the address itself
+		if st, ok := u.Elem().Underlying().(*types.Struct); ok {
+			for i := 0; i < st.NumFields(); i++ {
+				switch st.Field(i).Type().Underlying().(type) {
+				case *types.Pointer, *types.Map, *types.Chan, *types.Signature, *types.Interface, *types.Slice:
+					return true
+				}
+			}
+			return false
+		}
+		return true
+	case *types.Chan, *types.Signature:
+		return true
+	case *types.Basic:
+		return u.Kind() == types.UnsafePointer || u.Kind() == types.Uintptr
+	}
+	return false
+}
+
+// ---------------------------------------------------------------- C09/C10: package-level state
+
+// globalsSweep: every store to a package-level variable of the interpreter and
+// its standard library outside package initialisation must be listed in a
+// `global-writer` item of the contract files.
+func globalsSweep(eng *Engine) []*Item {
+	var out []*Item
+	gw := eng.globalWriters([]string{repoPrefix + "/lisp"})
+	n, bad := 0, 0
+	for _, g := range sortedKeys(gw) {
+		if strings.Contains(g, "lisp/x/") {
+			continue
+		}
+		for _, w := range gw[g] {
+			n++
+			key := g + " <- " + w
+			if reason, ok := eng.cs.GlobalWriters[key]; ok {
+				out = append(out, &Item{Name: "globals/" + key, Backend: "frame", Kind: "sweep", Status: "discharged", Detail: "ALLOWED (inspected): " + reason, Func: "globals", contract: true})
+				continue
+			}
+			bad++
+			out = append(out, &Item{Name: "globals/" + key, Backend: "frame", Kind: "sweep", Status: "failed", Detail: "package-level variable written outside init", Func: "globals", contract: true})
+		}
+	}
+	out = append(out, &Item{Name: "globals/no-unlisted-writer", Backend: "frame", Kind: "sweep", Func: "globals", contract: true,
+		Status: map[bool]string{true: "discharged", false: "failed"}[bad == 0],
+		Detail: fmt.Sprintf("%d (variable, writer) pairs outside init in lisp and lisplib; %d not listed", n, bad)})
+	return out
+}
+
+func init() {
+	sweepFuncs["C09"] = append(sweepFuncs["C09"], globalsSweep)
+	sweepFuncs["C10"] = append(sweepFuncs["C10"], globalsSweep)
+}
